@@ -168,10 +168,28 @@ SecondsValid ==
 CoshBound == 200
 InDomain == P1[1] <= CoshBound * D
 TanOf(a) == [p |-> BaseOf(a), ph |-> BaseRaw(a), v |-> DirOf(a), d |-> a[2]]
+AlongOf(a) == [i \in 1..Len(Taus) |-> [t |-> Taus[i], q |-> PointAlong(a, Taus[i])]]
+
+(***************************************************************************)
+(* Histories.  Every operation above is a QUERY: its specified value is a  *)
+(* function of the frame alone and the frame is UNCHANGED by it, so a      *)
+(* sequence of queries on the SAME tangent vector object must return, at   *)
+(* every step, the values of Obs (read-only queries must not change later  *)
+(* answers).  The only state change is item assignment on an array of      *)
+(* tangent vectors: Assign(pos, h) replaces entry pos by the tangent vector *)
+(* of the frame h and leaves the other entries alone; all later queries     *)
+(* answer for the edited array.                                            *)
+(***************************************************************************)
+QueryHistory == <<"origin_to", "point_along", "isometry_to", "angle", "normalized", "point_along", "origin_to", "angle">>
+Assign(arr, pos, h) == [arr EXCEPT ![pos] = h]
+Edits == << [pos |-> 1, sec |-> 2], [pos |-> 4, sec |-> 3], [pos |-> 9, sec |-> 5], [pos |-> 14, sec |-> 4], [pos |-> 4, sec |-> 1] >>
+EditsSound == \A i \in 1..Len(Edits) : Edits[i].sec \in 1..Len(Seconds) /\ Edits[i].pos >= 1
+\* frames whose tangent vector has integer hyperboloid coordinates (handed over as INTEGER arrays)
+Integral == D = 1
 
 Obs ==
-  [len |-> len, g |-> g, tv |-> TanOf(g), guards |-> [along |-> Bound(1500), turns |-> Bound(600), indomain |-> InDomain],
-   along |-> [i \in 1..Len(Taus) |-> [t |-> Taus[i], q |-> PointAlong(g, Taus[i])]],
+  [len |-> len, g |-> g, tv |-> TanOf(g), guards |-> [along |-> Bound(1500), turns |-> Bound(600), indomain |-> InDomain, integral |-> Integral],
+   along |-> AlongOf(g),
    turns |-> [i \in 1..Len(Turns) |->
                 LET h == Mul(g, Turns[i]) IN
                 [cos |-> CosOf(Turns[i]), tv |-> TanOf(h),
@@ -181,5 +199,9 @@ Obs ==
 EmitObs == PrintT("OBS " \o ToJson(Obs))
 TView == <<g, len>>
 
-ASSUME PrintT("SECONDS " \o ToJson([i \in 1..Len(Seconds) |-> TanOf(Seconds[i])]))
+ASSUME PrintT("SECONDS " \o ToJson([i \in 1..Len(Seconds) |->
+                                         [p |-> BaseOf(Seconds[i]), ph |-> BaseRaw(Seconds[i]), v |-> DirOf(Seconds[i]),
+                                          d |-> Seconds[i][2], along |-> AlongOf(Seconds[i])]]))
+ASSUME PrintT("HISTORY " \o ToJson(QueryHistory))
+ASSUME PrintT("EDITS " \o ToJson(Edits))
 =============================================================================
